@@ -17,6 +17,8 @@ type Tape struct {
 	Sched       []uint32
 	gi, si      int
 	Force       []uint32 // values returned by the first G draws in record mode (enumerated leading choices)
+	Blocks      [][2]int // [start,end) ranges of Gen that generated one repeated element (request, operation, ...)
+	open        []int
 }
 
 // SplitMix64 step.
@@ -166,4 +168,52 @@ func PayloadText(tag string, n int) string {
 		}
 	}
 	return string(b)
+}
+
+// Begin / End bracket the draws that generate one repeated element. The minimiser deletes whole
+// blocks, so a request or operation disappears together with the coin that announced it.
+func (t *Tape) Begin() { t.open = append(t.open, len(t.Gen)) }
+
+func (t *Tape) End() {
+	n := len(t.open)
+	if n == 0 {
+		return
+	}
+	start := t.open[n-1]
+	t.open = t.open[:n-1]
+	if len(t.Gen) > start {
+		t.Blocks = append(t.Blocks, [2]int{start, len(t.Gen)})
+	}
+}
+
+// More decides whether a repeated structure gets another element: true with probability
+// permille/1000, recorded canonically (0 = stop), so the all-zero tape generates the minimum.
+// Idiom:  for i := 0; i < max && (i < min || tp.More(700)); i++ { tp.Begin(); ...; tp.End() }
+// with More called inside the block when the element should vanish with its coin:
+//
+//	for i := 0; i < max; i++ { tp.Begin(); if i >= min && !tp.More(700) { tp.End(); break }; ...; tp.End() }
+func (t *Tape) More(permille int) bool {
+	v := t.G(1000) >= 1000-permille
+	if n := len(t.Gen); n > 0 {
+		if v {
+			t.Gen[n-1] = 999
+		} else {
+			t.Gen[n-1] = 0
+		}
+	}
+	return v
+}
+
+// Repeat runs gen between min and max times; every iteration is one block that starts with its
+// continuation coin.
+func (t *Tape) Repeat(min, max, permille int, gen func(i int)) {
+	for i := 0; i < max; i++ {
+		t.Begin()
+		if i >= min && !t.More(permille) {
+			t.End()
+			return
+		}
+		gen(i)
+		t.End()
+	}
 }
